@@ -4,9 +4,9 @@ CONSTANTS
   MaxDev = 3
   MaxFileMut = 2
   Sep = TRUE
-  FullExt = 1
+  FullExt = 2
   Wildcard = FALSE
 INVARIANT ReturnIffOk
 INVARIANT PrintedSigned
-INVARIANT EmitB
+INVARIANT ModelConsistent
 CHECK_DEADLOCK FALSE
